@@ -904,7 +904,7 @@ def run(ctx):
         cases = rep
     else:
         cases = diff.load_corpus("C23")
-        n = 1800 if tier == "quick" else 40000
+        n = 1800 if tier == "quick" else 20000
         specs = list(directed())
         weights = {"functor": 3, "arg": 3, "univ": 4, "copy": 4, "tvars": 3, "ground": 1, "subsumes": 3}
         bag = [op for op, w in weights.items() for _ in range(w)]
